@@ -56,6 +56,36 @@ def timing_verdict(v):
     return bool(v) and bool(TIMING.search(v))
 
 
+def bounded_map(func, cases, procs, per_case_s):
+    """pool.map for cases that run real threads of the library: a case that does not return within `per_case_s` seconds
+    gets the verdict 'the case did not finish within N s' (a worker stuck inside the library cannot hang the check); the
+    pool is torn down and the cases not yet done go to a fresh one.  After three rounds with hangs the rest is left
+    unevaluated (None): the verdict is already there."""
+    import multiprocessing
+    results = [None] * len(cases)
+    pending = list(range(len(cases)))
+    rounds_with_hangs = 0
+    while pending and rounds_with_hangs < 3:
+        pool = multiprocessing.Pool(min(procs, len(pending)))
+        try:
+            asyncs = [(i, pool.apply_async(func, (cases[i],))) for i in pending]
+            nxt, hung = [], False
+            for i, a in asyncs:
+                try:
+                    results[i] = a.get(timeout=2 if hung else per_case_s)
+                except multiprocessing.TimeoutError:
+                    if hung:
+                        nxt.append(i)
+                    else:
+                        results[i] = 'the case did not finish within %d s' % per_case_s
+                        hung = True
+            pending = nxt
+            rounds_with_hangs += hung
+        finally:
+            pool.terminate()
+    return results
+
+
 def raise_for(text):
     """turn the text of `describe_exc` into the right exception"""
     if text.startswith('lib:'):
